@@ -127,6 +127,37 @@ func init() {
 		sl.slen = n
 		return sl
 	})
+	// SymSet16: an arbitrary set of uint16 (map[uint16]struct{}); membership of the
+	// values below n is reported in counterexamples as name_<i>.
+	v("SymSet16", func(in *Interp, a []Value) Value {
+		name := in.conStr(a[0], "SymSet16")
+		n := int(in.concreteInt(a[1].(*Term), "SymSet16 domain"))
+		arr := in.F.ArrayVar(sanitizeKeep(name), 16, 1)
+		for i := 0; i < n; i++ {
+			in.probes = append(in.probes, probe{name: fmt.Sprintf("%s_%d", sanitizeKeep(name), i), t: in.F.Select(arr, in.F.Const(16, uint64(i)))})
+		}
+		in.nextObj++
+		return &MapV{id: in.nextObj, idx: map[string]int{}, arr: arr, kw: 16}
+	})
+	// SetSnapshot16: an independent copy of a set.
+	v("SetSnapshot16", func(in *Interp, a []Value) Value {
+		m := a[0].(*MapV)
+		in.nextObj++
+		if m == nil {
+			return &MapV{id: in.nextObj, idx: map[string]int{}}
+		}
+		cp := &MapV{id: in.nextObj, idx: map[string]int{}, arr: m.arr, kw: m.kw, symKeys: m.symKeys}
+		for _, e := range m.entries {
+			if e != nil {
+				ks, conc := in.keyString(e.k)
+				if conc {
+					cp.idx[ks] = len(cp.entries)
+				}
+				cp.entries = append(cp.entries, &MapEntry{k: e.k, v: e.v})
+			}
+		}
+		return cp
+	})
 	v("String", func(in *Interp, a []Value) Value {
 		name := in.conStr(a[0], "String")
 		n := int(in.concreteInt(a[1].(*Term), "String len"))
@@ -593,6 +624,11 @@ func init() {
 		})
 	}
 	registerNativeCallouts()
+}
+
+type probe struct {
+	name string
+	t    *Term
 }
 
 type pendKey struct {
